@@ -26,7 +26,7 @@ func runSpec(spec Spec) (res Result, timing [3]time.Duration) {
 			e.stat("op.skipped_bad_chain")
 			continue
 		}
-		if (op.K == "recv" || op.K == "ack" || op.K == "recv_tss" || op.K == "update") && (op.Relayer < 0 || op.Relayer > 2) {
+		if (op.K == "recv" || op.K == "ack" || op.K == "ack_tss" || op.K == "recv_eth" || op.K == "ack_eth" || op.K == "recv_tss" || op.K == "update") && (op.Relayer < 0 || op.Relayer > 2) {
 			e.stat("op.skipped_bad_relayer")
 			continue
 		}
@@ -34,6 +34,8 @@ func runSpec(spec Spec) (res Result, timing [3]time.Duration) {
 		switch op.K {
 		case "send":
 			e.opSend(op)
+		case "send_multi":
+			e.opSendMulti(op)
 		case "send_raw":
 			e.opSendRaw(op, i)
 		case "recv":
@@ -42,6 +44,12 @@ func runSpec(spec Spec) (res Result, timing [3]time.Duration) {
 			e.opRecvTss(op, i)
 		case "ack":
 			e.opAck(op, i)
+		case "ack_tss":
+			e.opAckTss(op, i)
+		case "recv_eth":
+			e.opRecvEth(op)
+		case "ack_eth":
+			e.opAckEth(op)
 		case "update":
 			e.opUpdate(op)
 		case "block":
